@@ -14,6 +14,7 @@ pub mod c03;
 pub mod c04;
 pub mod c05;
 pub mod c06;
+pub mod c07;
 pub mod c08;
 pub mod c09;
 pub mod c10;
@@ -28,7 +29,7 @@ pub mod c18;
 pub mod c19;
 pub mod c20;
 
-pub static ALL: &[Prop] = &[c01::PROP, c02::PROP, c03::PROP, c04::PROP, c05::PROP, c06::PROP, c08::PROP, c09::PROP, c10::PROP, c11::PROP, c12::PROP, c13::PROP, c14::PROP, c15::PROP, c16::PROP, c17::PROP, c18::PROP, c19::PROP, c20::PROP];
+pub static ALL: &[Prop] = &[c01::PROP, c02::PROP, c03::PROP, c04::PROP, c05::PROP, c06::PROP, c07::PROP, c08::PROP, c09::PROP, c10::PROP, c11::PROP, c12::PROP, c13::PROP, c14::PROP, c15::PROP, c16::PROP, c17::PROP, c18::PROP, c19::PROP, c20::PROP];
 
 /// Internal sub-commands (child processes of a check).
 pub fn internal(cmd: &str, _args: &[String]) -> Option<i32> {
